@@ -288,14 +288,12 @@ Theorem C05_unused_sound_stage2 : forall bi ns p, u2_block p = true -> star_free
 Proof. exact u2_unused_sound. Qed.
 Print Assumptions C05_unused_sound_stage2.
 
-(* what the fragment excludes: a function-local import read by a nested function that is defined before it (C05a) *)
-Theorem C05_unused_sound_refuted_local_import :
-  ~ unused_sound_at [SDef 1 90 [] (Params [] [] None [] None [] []) None
+(* C05a (repaired): a function-local import read by a nested function that is defined before it is no longer reported *)
+Example C05_C05a_repaired :
+  snd (finder [] [[]] true [SDef 1 90 [] (Params [] [] None [] None [] []) None
                        [SDef 2 91 [] (Params [] [] None [] None [] []) None [SExpr 3 (ELoad 92 [])];
-                        SImport 4 [([92], None)]; SExpr 5 (EOp [ELoad 91 []])]].
-Proof. unfold unused_sound_at. intro H. apply (H 4%nat ([92], [92])) with (ln := 3%nat) (n := 92); vm_compute; auto. Qed.
-Print Assumptions C05_unused_sound_refuted_local_import.
-
+                        SImport 4 [([92], None)]; SExpr 5 (EOp [ELoad 91 []])]]) = [].
+Proof. vm_compute. reflexivity. Qed.
 
 (* ---------- stage 3: comprehensions (Fragment.s3_block) ----------
    A comprehension may stand wherever an expression may - at module level, in function and lambda bodies, defaults,
@@ -350,3 +348,12 @@ Example C05_nonvacuous_stage3 :
      (3%nat, 117, Bound BOther); (4%nat, 110, Bound BOther); (4%nat, 121, Bound BOther); (4%nat, 122, Bound BOther);
      (4%nat, 120, Bound BOther); (5%nat, 123, Unbound); (5%nat, 123, Bound BOther)].
 Proof. vm_compute. repeat split. Qed.
+
+
+(* the unused side on stage 3 (Fragment.u3_block: u2 with comprehensions) *)
+Theorem C05_unused_sound_stage3 : forall bi ns p, u3_block p = true -> star_free bi ns = true ->
+  imports_once bi ns p = true -> NoDup (imp_events (bsrcs_block false p)) ->
+  forall l i, In (l, i) (snd (finder bi ns true p)) ->
+  forall ln n, ~ In (ln, n, Bound (BImp l i)) (pysem bi ns p).
+Proof. exact u3_unused_sound. Qed.
+Print Assumptions C05_unused_sound_stage3.
